@@ -88,7 +88,7 @@ def run(run):
     names = ["m", "md", "md2", "get", "Name", "getName", "e", "n", "a", "b", "x", "x1", "p", "in1", "_", "_m", "d", "N"]
     try:
         for pi in range(nproj):
-            proj = E.small_project(rng, h, nfiles=2)
+            proj = E.small_project(rng, h, nfiles=2, extra={"src/Gate.java": c01.GATE})
             try:
                 kinds = [k for k in QG.KINDS_DEFAULT if proj.by_kind.get(k)]
                 for v in c01.predicate_cases(rng, proj, rng.choice(kinds), alias=rng.choice(["x", "md", "m2"]), limit=(100 if run.depth == "quick" else None)):
